@@ -712,6 +712,12 @@ func (e *Engine) finish() *Violation {
 	if relTablesPerNode(e.S.W) > 32 {
 		e.St.Probes["runs-with->32-tables-in-one-relation-node"]++
 	}
+	if n := len(e.M.Alive); n > e.St.Probes["max:entities-alive-at-end"] {
+		e.St.Probes["max:entities-alive-at-end"] = n
+	}
+	if len(e.M.Alive) > 256 {
+		e.St.Probes["runs-ending-with->256-entities"]++
+	}
 	d := e.S.W.DumpEntities()
 	e.logEnts("dump", d.Entities)
 	e.log.U64(uint64(d.Next))
